@@ -275,7 +275,7 @@ Qed.
    neighbours, every dynamic neighbour in the table has a live connection *)
 Lemma step_keys g o : keys_ok g -> keys_ok (fst (step_op g o)).
 Proof.
-  unfold keys_ok. intro Hk. destruct o as [a r|a r|a b|a|a|a|a r]; cbn [step_op].
+  unfold keys_ok. intro Hk. destruct o as [a r|a r|a b|a|a|a|a r|a u|a ro rn]; cbn [step_op].
   - unfold accept_connection. destruct (lookup a (gl_peers g)) as [p|].
     + destruct (pe_admin_down p); [exact Hk|]. destruct (conn_of p r); [exact Hk|].
       cbn [fst set_peers gl_peers]. apply nodup_update. exact Hk.
@@ -298,12 +298,27 @@ Proof.
       cbn [fst set_peers gl_peers]. apply nodup_update. exact Hk1.
     + destruct (find (group_matches a) (gl_groups g1)); [|exact Hk1].
       cbn [fst set_peers gl_peers]. apply nodup_update. exact Hk1.
+  - cbn [fst]. unfold update_peer. destruct (lookup a (gl_peers g)) as [p|]; [|exact Hk].
+    destruct (negb _ || negb _); [exact Hk|].
+    match goal with |- context [if ?b then set_peers g (remove _ _) else _] => destruct b end;
+      cbn [set_peers gl_peers]; [apply nodup_remove|apply nodup_update]; exact Hk.
+  - destruct (lookup a (gl_peers g)) as [p|] eqn:Hl; [|exact Hk]. destruct (conn_of p ro); [|exact Hk].
+    set (g1 := set_peers g (update a (set_conn p ro false) (gl_peers g))).
+    assert (Hk1 : NoDup (map fst (gl_peers g1))) by (apply nodup_update; exact Hk).
+    destruct (accept_connection g1 a rn) as [|g' s] eqn:Ha; cbn [fst].
+    + unfold disconnect. rewrite Hl.
+      destruct (negb _ && negb _ && _); cbn [set_peers gl_peers]; [apply nodup_remove|apply nodup_update]; exact Hk.
+    + unfold accept_connection in Ha. destruct (lookup a (gl_peers g1)) as [q|].
+      * destruct (pe_admin_down q); [discriminate Ha|]. destruct (conn_of q rn); [discriminate Ha|].
+        injection Ha as <- _. cbn [set_peers gl_peers]. apply nodup_update. exact Hk1.
+      * destruct (find (group_matches a) (gl_groups g1)); [|discriminate Ha].
+        injection Ha as <- _. cbn [set_peers gl_peers]. apply nodup_update. exact Hk1.
 Qed.
 
 Lemma step_dynamic g o :
   keys_ok g -> dynamic_have_connection g -> dynamic_have_connection (fst (step_op g o)).
 Proof.
-  unfold dynamic_have_connection. intros Hk Hinv. destruct o as [a r|a r|a b|a|a|a|a r]; cbn [step_op].
+  unfold dynamic_have_connection. intros Hk Hinv. destruct o as [a r|a r|a b|a|a|a|a r|a u|a ro rn]; cbn [step_op].
   - destruct (accept_connection g a r) as [|g' s] eqn:Ha; [exact Hinv|]. cbn [fst].
     destruct (C16_session_fields_from_config g g' a r s Ha) as (p & Hl & _ & Hc & Hoth & _).
     intros b q Hq Hd. destruct (addr_dec b a) as [->|Hne].
@@ -357,6 +372,39 @@ Proof.
     intros c q Hq Hd. destruct (addr_dec c a) as [->|Hne].
     + rewrite Hl in Hq. injection Hq as <-. destruct r; cbn [conn_of] in Hc; auto.
     + rewrite (Hoth c Hne) in Hq. exact (Hinv1 c q Hq Hd).
+  - (* update_peer *)
+    cbn [fst]. unfold update_peer. destruct (lookup a (gl_peers g)) as [p|] eqn:Hl; [|exact Hinv].
+    destruct (negb _ || negb _); [exact Hinv|].
+    match goal with |- context [if ?b && (pe_conn_active p || pe_conn_passive p) && pe_delete p then _ else _] => set (td := b) end.
+    intros c q Hq Hd. destruct (addr_dec c a) as [->|Hne].
+    + destruct (td && (pe_conn_active p || pe_conn_passive p) && pe_delete p) eqn:E; cbn [set_peers gl_peers] in Hq.
+      * rewrite lookup_remove_same in Hq by exact Hk. discriminate Hq.
+      * rewrite lookup_update_same in Hq. injection Hq as <-. cbn [pe_delete pe_conn_active pe_conn_passive] in Hd |- *.
+        destruct (Hinv a p Hl Hd) as [Hc|Hc]; rewrite Hc, Hd in E; rewrite ?orb_true_r in E; cbn in E;
+          destruct td; try discriminate E; auto.
+    + destruct (td && (pe_conn_active p || pe_conn_passive p) && pe_delete p); cbn [set_peers gl_peers] in Hq;
+        [rewrite lookup_remove_other in Hq by exact Hne|rewrite lookup_update_other in Hq by exact Hne];
+        exact (Hinv c q Hq Hd).
+  - (* a connection ends while another one is admitted *)
+    destruct (lookup a (gl_peers g)) as [p|] eqn:Hl; [|exact Hinv]. destruct (conn_of p ro) eqn:Hc; [|exact Hinv].
+    set (g1 := set_peers g (update a (set_conn p ro false) (gl_peers g))).
+    destruct (accept_connection g1 a rn) as [|g' s] eqn:Ha; cbn [fst].
+    + pose proof (step_dynamic_disconnect := I).
+      destruct (C16_dynamic_peer_removed g a ro p Hk Hl Hc) as (H1 & H2 & H3). cbv zeta in H1, H2, H3.
+      cbn [step_op] in H1, H2, H3. rewrite Hl, Hc in H1, H2, H3. cbn [fst] in H1, H2, H3.
+      intros b q Hq Hd. destruct (addr_dec b a) as [->|Hne].
+      * destruct (pe_delete p) eqn:Edel; [destruct (conn_of p (other ro)) eqn:Eo|].
+        -- rewrite (H2 (or_intror eq_refl)) in Hq. injection Hq as <-.
+           destruct ro; cbn [other conn_of set_conn pe_conn_active pe_conn_passive] in *; auto.
+        -- rewrite (H1 eq_refl eq_refl) in Hq. discriminate Hq.
+        -- rewrite (H2 (or_introl eq_refl)) in Hq. injection Hq as <-.
+           replace (pe_delete (set_conn p ro false)) with (pe_delete p) in Hd by (destruct ro; reflexivity). congruence.
+      * rewrite (H3 b Hne) in Hq. exact (Hinv b q Hq Hd).
+    + destruct (C16_session_fields_from_config g1 g' a rn s Ha) as (q0 & Hl' & _ & Hcn & Hoth & _).
+      intros b q Hq Hd. destruct (addr_dec b a) as [->|Hne].
+      * rewrite Hl' in Hq. injection Hq as <-. destruct rn; cbn [conn_of] in Hcn; auto.
+      * rewrite (Hoth b Hne) in Hq. cbn [g1 set_peers gl_peers] in Hq.
+        rewrite lookup_update_other in Hq by exact Hne. exact (Hinv b q Hq Hd).
 Qed.
 
 Lemma C16_dynamic_peers_have_connections :
@@ -545,4 +593,96 @@ Lemma C16_stale_task_removes_live_dynamic_peer_refuted :
 Proof.
   exists (with_groups ex_global [ex_group2]).
   eexists _, ex_addr. vm_compute. do 2 eexists. repeat split; reflexivity.
+Qed.
+
+(* (21) UpdatePeer does not turn a dynamic neighbour into a permanent one (finding
+   C16-6 repaired), nor the reverse; it does not touch the admin-down mark, and
+   it leaves every other neighbour alone *)
+Lemma C16_update_keeps_dynamic :
+  forall (g : global) (a : ipaddr) (u : upd) (p : peer),
+    keys_ok g -> lookup a (gl_peers g) = Some p ->
+    (forall p', lookup a (gl_peers (update_peer g a u)) = Some p' ->
+                pe_delete p' = pe_delete p /\ pe_admin_down p' = pe_admin_down p)
+    /\ (forall b, b <> a -> lookup b (gl_peers (update_peer g a u)) = lookup b (gl_peers g)).
+Proof.
+  intros g a u p Hk Hl. unfold update_peer. rewrite Hl.
+  destruct (negb _ || negb _).
+  - split; [intros p' Hp'; rewrite Hl in Hp'; injection Hp' as <-; auto|reflexivity].
+  - match goal with |- context [if ?b then set_peers g (remove _ _) else _] => destruct b end; cbn [set_peers gl_peers].
+    + split; [|intros b Hb; apply lookup_remove_other; exact Hb].
+      intros p' Hp'. rewrite lookup_remove_same in Hp' by exact Hk. discriminate Hp'.
+    + split; [|intros b Hb; apply lookup_update_other; exact Hb].
+      intros p' Hp'. rewrite lookup_update_same in Hp'. injection Hp' as <-. split; reflexivity.
+Qed.
+
+(* (22) a connection admitted while an earlier connection of the same neighbour
+   is ending keeps its neighbour record, with its connection mark (finding
+   C16-7 repaired) *)
+Lemma C16_live_connection_keeps_record :
+  forall (g : global) (a : ipaddr) (ro rn : role) (s : session),
+    snd (step_op g (ODisconnectRace a ro rn)) = Some (Some s) ->
+    exists p, lookup a (gl_peers (fst (step_op g (ODisconnectRace a ro rn)))) = Some p /\ conn_of p rn = true.
+Proof.
+  intros g a ro rn s. cbn [step_op].
+  destruct (lookup a (gl_peers g)) as [p|]; [|intro H; discriminate H].
+  destruct (conn_of p ro); [|intro H; discriminate H].
+  destruct (accept_connection _ a rn) as [|g' s'] eqn:Ha; cbn [fst snd]; [intro H; discriminate H|].
+  intros _. destruct (C16_session_fields_from_config _ g' a rn s' Ha) as (q & Hq & _ & Hc & _). eauto.
+Qed.
+
+(* record of finding C16-7: with the no-sessions test taken before the lock, the
+   ending task removes the dynamic neighbour the new connection belongs to *)
+Definition ex_g1 : global :=
+  match accept_connection (with_groups ex_global [ex_group2]) ex_addr RPassive with
+  | Accept g _ => g
+  | Reject => ex_global
+  end.
+
+Lemma C16_stale_no_sessions_refuted :
+  exists (g g' : global) (a : ipaddr) (s : session) (p : peer),
+    fst (step_op g (ODisconnectRace a RPassive RPassive)) = g'
+    /\ snd (step_op g (ODisconnectRace a RPassive RPassive)) = Some (Some s)
+    /\ lookup a (gl_peers g') = Some p /\ pe_conn_passive p = true
+    /\ lookup a (gl_peers (stale_task_end_unchecked g' a)) = None.
+Proof.
+  exists ex_g1, (fst (step_op ex_g1 (ODisconnectRace ex_addr RPassive RPassive))), ex_addr.
+  vm_compute. do 2 eexists. repeat split; reflexivity.
+Qed.
+
+(* record of finding C16-6: update_peer used to write delete_on_disconnected = false *)
+Definition clear_delete (p : peer) : peer :=
+  {| pe_expected_asn := pe_expected_asn p; pe_local_asn := pe_local_asn p; pe_passive := pe_passive p;
+     pe_delete := false; pe_hold := pe_hold p; pe_local_cap := pe_local_cap p;
+     pe_rs_client := pe_rs_client p; pe_rr := pe_rr p; pe_router_id := pe_router_id p;
+     pe_multihop := pe_multihop p; pe_ttlsec := pe_ttlsec p; pe_prefix_limits := pe_prefix_limits p;
+     pe_send_max := pe_send_max p; pe_admin_down := pe_admin_down p;
+     pe_conn_active := pe_conn_active p; pe_conn_passive := pe_conn_passive p |}.
+
+Lemma C16_update_clearing_delete_refuted :
+  exists (g1 : global) (a : ipaddr) (p : peer),
+    lookup a (gl_peers g1) = Some p /\ pe_delete p = true /\ pe_conn_passive p = true /\ pe_conn_active p = false
+    /\ lookup a (gl_peers (disconnect g1 a RPassive)) = None
+    /\ lookup a (gl_peers (disconnect (set_peers g1 (update a (clear_delete p) (gl_peers g1))) a RPassive)) <> None.
+Proof.
+  exists ex_g1, ex_addr. vm_compute. eexists. repeat split; discriminate.
+Qed.
+
+(* (25) UpdatePeer gives the neighbour the local AS a neighbour configured that
+   way gets from add_peer, confederation identifier included (finding C16-8
+   repaired) *)
+Lemma C16_update_local_asn_as_configured :
+  forall (g : global) (a : ipaddr) (u : upd) (p p' : peer) (pa : params),
+    keys_ok g ->
+    lookup a (gl_peers g) = Some p -> lookup a (gl_peers (update_peer g a u)) = Some p' ->
+    u_rs_client u = pe_rs_client p -> u_rr_client u = rr_client (pe_rr p) ->
+    pa_expected_asn pa = u_asn u -> pa_local_asn pa = u_local_asn u ->
+    pe_local_asn p' = pe_local_asn (build_peer g a pa) /\ pe_expected_asn p' = u_asn u.
+Proof.
+  intros g a u p p' pa Hk Hl Hl' Hrs Hrr He Hla. unfold update_peer in Hl'. rewrite Hl in Hl'.
+  rewrite Hrs, Hrr, !eqb_reflx in Hl'. cbn [negb orb] in Hl'.
+  match type of Hl' with context [if ?b then set_peers g (remove _ _) else _] => destruct b end;
+    cbn [set_peers gl_peers] in Hl'.
+  - rewrite lookup_remove_same in Hl' by exact Hk. discriminate Hl'.
+  - rewrite lookup_update_same in Hl'. injection Hl' as <-. cbn [pe_local_asn pe_expected_asn build_peer].
+    rewrite He, Hla. split; reflexivity.
 Qed.
